@@ -154,3 +154,10 @@ pub(crate) trait CMsgHdr {
 
 #[cfg(unix)]
 pub(crate) const LEN: usize = 96;
+
+#[cfg(feature = "__verif-hooks")]
+#[allow(missing_docs, unreachable_pub, dead_code, unused_imports, unused_qualifications)]
+pub mod verif {
+    use super::*;
+    include!(concat!(env!("QUINN_VERIF_HOOKS"), "/udp/cmsg/mod.rs"));
+}
